@@ -94,6 +94,7 @@ def turtle(desc):
     pen = (0.0, 0.0)
     ends = {}
     items = []
+    heading = 'right'
     for e in desc['elements']:
         t = e['type']
         if e.get('place_after') is not None:
@@ -108,8 +109,17 @@ def turtle(desc):
             items.append(it)
             ends[e.get('name', '')] = pen
             continue
-        dx, dy = DIRS[e['direction']]
-        L = e.get('length', 1) * unit
+        # an entry without a direction is one drawing unit long and - as in the equivalent programmatic construction, the
+        # symbol added without .right()/.up()/... - points up if it is a source or a lamp (their drawing default) and
+        # otherwise continues in the direction of the two-terminal entry drawn before it (initially to the right)
+        if 'direction' in e:
+            heading = e['direction']
+            L = e.get('length', 1) * unit
+        else:
+            L = unit
+            if t == 'lamp' or t.endswith('_source'):
+                heading = 'up'
+        dx, dy = DIRS[heading]
         q = (pen[0] + dx * L, pen[1] + dy * L)
         if t == 'line':
             if 'name' in e:
@@ -160,6 +170,8 @@ def check_declarative(case, r: R):
             r.cls('reverse')
         if e.get('length', 1) != 1:
             r.cls('length!=1')
+        if e['type'] not in ('ground', 'node') and 'direction' not in e:
+            r.cls('no-direction')
     circuit = None
     lib_desc = to_lib_desc(desc)
     before = copy.deepcopy(lib_desc)
@@ -174,6 +186,20 @@ def check_declarative(case, r: R):
     # the element list is the user's document: it still describes the same circuit after it has been drawn once
     if lib_desc != before:
         r.fail('description-consumed', f'create_schematic changed the element list it was given: {_first_difference(before, lib_desc)}')
+    if case.get('on_axes'):
+        r.cls('drawn-onto-supplied-axes')
+        onax = None
+        with r.lib('create_schematic[circuit_ax]'):
+            import matplotlib
+            matplotlib.use('Agg')
+            import matplotlib.pyplot as plt
+            fig, ax = plt.subplots()
+            try:
+                onax = circuit_translator(create_schematic(lib_desc, circuit_ax=ax))
+            finally:
+                plt.close(fig)
+        if onax is not None:
+            c13.structural(prog, onax, r, tag='[drawn onto supplied axes]')
     again = None
     with r.lib('create_schematic[same list again]'):
         again = circuit_translator(create_schematic(lib_desc))
@@ -217,6 +243,8 @@ def declarative_case(draw):
                 e['reverse'] = draw(st.booleans())
         if draw(st.sampled_from([False, False, True])):
             e['length'] = draw(st.sampled_from([2, 1.5, 3]))
+        elif draw(st.integers(0, 5)) == 0:
+            del e['direction']          # drawing default: straight on (sources and lamps: up)
         if named and draw(st.sampled_from([False, False, False, True])):
             e['place_after'] = draw(st.sampled_from(named))
         elements.append(e)
@@ -225,7 +253,7 @@ def declarative_case(draw):
     if not used_ground:
         elements.insert(draw(st.integers(0, len(elements))), {'type': 'ground', 'name': '0'})
     # a ground placed first sits at the origin; place_after must refer to an earlier entry: guaranteed by construction
-    return {'desc': {'unit': unit, 'elements': elements}}
+    return {'desc': {'unit': unit, 'elements': elements}, 'on_axes': draw(st.sampled_from([False, False, False, True]))}
 
 
 TESTS = [
